@@ -39,6 +39,21 @@
 static void *vp_malloc(size_t sz); static void vp_free(void *p);
 #define malloc vp_malloc
 #define free vp_free
+/* Object release = typed harness dispatcher instead of the generic obj_release function pointer
+ * (the object system is C34's unit).  With the generic PARSEC_OBJ_RELEASE the solver has to follow
+ * 14 type-compatible candidates per call site, recursively through every destructor: no verdict
+ * in 10 min even for one LRU member.  A copy reaching reference count 0 runs the REAL
+ * parsec_data_copy_destruct and is freed; a data reaching 0 is marked destroyed (its destructor,
+ * which only walks the already empty device_copies[], is not executed). */
+#include "parsec/parsec_config.h"
+#include "parsec/class/parsec_object.h"
+#undef PARSEC_OBJ_RELEASE
+struct parsec_data_s; struct parsec_data_copy_s;
+static int vp_release_data(struct parsec_data_s *d);
+static int vp_release_copy(struct parsec_data_copy_s *c);
+static int vp_release_other(void *o);
+#define PARSEC_OBJ_RELEASE(object) do { if (_Generic((object), struct parsec_data_s *: vp_release_data, \
+        struct parsec_data_copy_s *: vp_release_copy, default: vp_release_other)(object)) object = NULL; } while (0)
 #include "parsec/data.c"
 #include "parsec/mca/device/device_gpu.c"
 #include "parsec/class/parsec_list.c"
@@ -120,6 +135,23 @@ static void vp_free(void *p)
     if (freed[k]) double_free = 1;
     freed[k] = 1;
 }
+
+static int data_destroyed_with_copies;
+static int vp_release_copy(struct parsec_data_copy_s *c)
+{
+    if (0 != parsec_obj_update(&c->super.super, -1)) return 0;
+    parsec_data_copy_destruct(c);
+    vp_free(c);
+    return 1;
+}
+static int vp_release_data(struct parsec_data_s *d)
+{
+    if (0 != parsec_obj_update(&d->super, -1)) return 0;
+    if (d->nb_copies != 0) data_destroyed_with_copies = 1;
+    vp_free(d);
+    return 1;
+}
+static int vp_release_other(void *o) { (void)o; VASSERTM(0, "harness: only datas and data copies are released by reserve_space"); return 0; }
 
 /* allocator stub + ghost */
 static int ch_live[8], n_zfree, n_zmalloc_ok, zfree_bad, zfree_dead;
@@ -264,7 +296,7 @@ int main(void)
 #ifdef SELFCONT
         oself[k] = IN_BOOL();
 #endif
-        int ts = IN_RANGE(0, 2), coh = IN_RANGE(0, 3), ver = IN_RANGE(0, 3);
+        int ts = IN_RANGE(0, 2), coh = IN_RANGE(0, 3), ver = IN_RANGE(0, 3); if (coh == 3) coh = (int)PARSEC_DATA_COHERENCY_SHARED;
         parsec_data_copy_t *p = pcopy(k);
         mk_obj(p, &parsec_data_copy_t_class);
         p->flags = PARSEC_DATA_FLAG_PARSEC_OWNED | PARSEC_DATA_FLAG_PARSEC_MANAGED;
@@ -303,7 +335,7 @@ int main(void)
     int qhas[2], q_rd[2], q_rc[2];
     for (int m = 0; m < 2; m++) {
         qhas[m] = IN_BOOL(); q_rd[m] = IN_RANGE(0, 2); q_rc[m] = IN_RANGE(1, 2);
-        int ts = IN_RANGE(0, 2), coh = IN_RANGE(0, 3), ver = IN_RANGE(0, 3);
+        int ts = IN_RANGE(0, 2), coh = IN_RANGE(0, 3), ver = IN_RANGE(0, 3); if (coh == 3) coh = (int)PARSEC_DATA_COHERENCY_SHARED;
         VASSUME(!qhas[m] || (m == 0 ? n3 : n4) == 0);
         if (!qhas[m]) continue;
         parsec_data_copy_t *q = m == 0 ? &Q0 : &Q1;
@@ -343,6 +375,7 @@ int main(void)
     walk_lru();
     VASSERTM(!alloc_overflow && !bad_free, "harness: object pool large enough, only harness objects are freed");
     VASSERTM(!double_free, "no object is freed twice");
+    VASSERTM(!data_destroyed_with_copies, "a data is only destroyed once no copy is attached to it");
     VASSERTM(rc == PARSEC_HOOK_RETURN_DONE || rc == PARSEC_HOOK_RETURN_AGAIN, "B: reserve_space returns DONE or AGAIN");
 
     /* A: eviction conditions */
